@@ -10,15 +10,13 @@
 (* The threshold tests use CCTTypes!Meets, which Verify.tla shows to be    *)
 (* what the verify_signable loop computes.                                 *)
 (***************************************************************************)
-EXTENDS CCTTypes, Json
+EXTENDS RootReq, Json
 
 CONSTANTS MaxThr, NWF, Emit, MUTANT, SigStatesSel
 
 VARIABLES case, pc, outcome
 vars == <<case, pc, outcome>>
 
-DocFamilies == {"TypeError", "ValueError", "SignatureError", "MetadataVerificationError", "UnknownRoleError", "CCT_Error"}
-ArgFamilies == {"TypeError", "ValueError"}
 
 (* per-key entry states for root envelopes (OpenPGP mode is what counts) *)
 RootSigStates ==
@@ -30,7 +28,6 @@ RootSigStates ==
          V("gpg", "self", "P", "gpg", FALSE),     \* corrupted
          V("gpg", "other", "P", "gpg", TRUE) }    \* mis-filed
 
-Doc(t, v, rk, rt, hasroot, wf, wfc) == [type |-> t, ver |-> v, rk |-> rk, rt |-> rt, hasroot |-> hasroot, wf |-> wf, wfc |-> wfc]
 
 AllSigned == [n \in Names |-> IF IsCanonName(n) THEN V("gpg", "self", "P", "gpg", TRUE) ELSE Absent]
 
@@ -51,25 +48,6 @@ InitSide ==
      /\ case = [t |-> IF side \in {"t", "both"} THEN Doc(tt, 1, Key, 1, th, "bad", w) ELSE Doc(tt, 1, Key, 1, th, "ok", 0),
                 n |-> IF side \in {"n", "both"} THEN Doc(nt, nv, Key, 1, nh, "bad", w) ELSE Doc(nt, nv, Key, 1, nh, "ok", 0),
                 sigs |-> AllSigned]
-
-(* ------------------------------ requirement layer ----------------------- *)
-WF(d) == d.wf = "ok"
-BothRoot(c) == c.t.type = "root" /\ c.n.type = "root"
-HasRules(c) == c.t.hasroot /\ c.n.hasroot
-RootIff(c) ==
-  /\ WF(c.t) /\ WF(c.n) /\ BothRoot(c) /\ HasRules(c)
-  /\ c.n.ver = c.t.ver + 1
-  /\ Meets(c.sigs, c.t.rk, c.t.rt, TRUE)
-  /\ Meets(c.sigs, c.n.rk, c.n.rt, TRUE)
-
-Allowed(c) ==
-  IF RootIff(c) THEN {"accept"}
-  ELSE IF ~(WF(c.t) /\ WF(c.n)) THEN ArgFamilies
-  ELSE IF ~BothRoot(c) THEN DocFamilies         \* "not root type": any documented family
-  ELSE IF ~HasRules(c) THEN DocFamilies         \* the checker does not demand a root rule (D4): any documented family
-  ELSE (IF c.n.ver # c.t.ver + 1 THEN {"MetadataVerificationError"} ELSE {})
-       \cup (IF ~(Meets(c.sigs, c.t.rk, c.t.rt, TRUE) /\ Meets(c.sigs, c.n.rk, c.n.rt, TRUE))
-               THEN {"SignatureError"} ELSE {})
 
 (* ------------------------------ implementation layer -------------------- *)
 Fail(e) == pc' = "done" /\ outcome' = e /\ UNCHANGED case
